@@ -3,10 +3,13 @@ C01 — converting between tensor representations preserves the tensor.
 Only property theorems and non-vacuity examples; proofs are in Lemmas/Convert.lean; the Tucker and
 sum-tensor expansions are proved with the multilinear kernels of C02 (Lemmas/MLTucker.lean,
 Lemmas/MLSumFull.lean) and re-exported here under their C01 names.
+Second batch (reports, `double()` / `to_tensor()` of every class, `ktensor.to_tenmat`, chains of
+conversions): models in Ops/ConvertChain.lean, proofs in Lemmas/Convert{Generic,Double,Chain,Reports}.lean.
 -/
 import PyttbModel.Lemmas.Convert
 import PyttbModel.Lemmas.MLTucker
 import PyttbModel.Lemmas.MLSumFull
+import PyttbModel.Lemmas.ConvertReports
 import Mathlib.Algebra.Ring.Defs
 namespace Pyttb
 
@@ -144,5 +147,339 @@ example : ∃ D, (⟨⟨[1, 2], [3, 4]⟩, [[[1], [2]], [[1, 0], [0, 1]]]⟩ : T
 
 example : (⟨[2, 2], [0, 5, 7, 0]⟩ : Dense Int).toSparse = ⟨[2, 2], [[1, 0], [0, 1]], [5, 7]⟩ := by decide
 example : isPermOf ([2] ++ [0, 1]) 3 = true := by decide
+
+/-! ## Second batch -/
+
+/-! ### what the converted objects report -/
+
+/-- `T.to_tenmat(rdims, cdims, cdims_cyclic)`, every argument convention: whenever the call is
+accepted the object reports the tensor's shape as `tshape`, the pair `gather_wrap_dims` derives
+from the arguments (see `C01_wrap_conventions` for fc / bc / t / one-sided) as `rindices` /
+`cindices` — a permutation of the modes —, holds a matrix of shape
+`(prod tshape[rindices], prod tshape[cindices])` with one value per cell and as many cells as
+the tensor, and (when the tensor has a cell) reports that shape as `shape` and `ndims = 2`. -/
+theorem C01_tenmat_reports [Zero α] (T : Dense α) (hT : T.WF) (rd cd : Option (List Nat)) (cyc : Option Cyclic)
+    (M : Tenmat α) (h : T.toTenmat rd cd cyc = .ok M) :
+    ∃ r c, gatherWrapDims T.shape.length rd cd cyc = .ok (r, c) ∧
+      isPermOf (r ++ c) T.shape.length = true ∧
+      M.tshape = T.shape ∧ M.rdims = r ∧ M.cdims = c ∧ M.WF ∧
+      M.data.shape = [numel (gather T.shape r), numel (gather T.shape c)] ∧
+      numel M.data.shape = numel T.shape ∧
+      (0 < numel T.shape →
+        M.shapeProp = [numel (gather T.shape r), numel (gather T.shape c)] ∧ M.ndims = 2) :=
+  tenmat_reports T hT rd cd cyc M h
+
+/-- an acceptable split (listed modes in range, `gather_wrap_dims` yields a permutation of the
+modes) is accepted by `to_tenmat`. -/
+theorem C01_tenmat_accepts [Zero α] (T : Dense α) (hT : T.WF) (rd cd : Option (List Nat)) (cyc : Option Cyclic)
+    (hv : splitValid T.shape.length rd cd cyc = true) : ∃ M, T.toTenmat rd cd cyc = .ok M := by
+  obtain ⟨r, c, _, _, h⟩ := toTenmat_valid T hT rd cd cyc hv
+  exact ⟨_, h⟩
+
+/-- The `tenmat` constructor (data with at least one cell): whenever
+`tenmat(data, rdims, cdims, tshape)` is accepted the object holds the given values as a matrix (a
+vector becomes one row), reports the given `tshape` (default: the matrix shape), the pair
+`gather_wrap_dims` derives from the arguments as `rindices` / `cindices` — a permutation of the
+modes —, and matrix and tensor have equally many cells.
+PARTIAL: the clause "matrix shape = (prod tshape[rindices], prod tshape[cindices])" is missing
+because the code does not establish it — it only compares the PRODUCT of the two side sizes with
+the cell count (`C01_tenmat_ctor_shape_counterexample`); under that extra hypothesis the object
+is well-formed (`C01_tenmat_ctor_wf`) and `C01_tenmat_toTensor` applies. -/
+theorem C01_tenmat_ctor_reports_partial (data : Dense α) (rd cd ts : Option (List Nat)) (M : Tenmat α)
+    (hpos : numel data.shape ≠ 0) (h : Tenmat.mk? data rd cd ts = .ok M) :
+    M.data.data = data.data ∧
+    (M.data.shape = data.shape ∨ ∃ n, data.shape = [n] ∧ M.data.shape = [1, n]) ∧
+    M.data.shape.length = 2 ∧
+    M.tshape = ts.getD M.data.shape ∧
+    gatherWrapDims M.tshape.length rd cd none = .ok (M.rdims, M.cdims) ∧
+    isPermOf (M.rdims ++ M.cdims) M.tshape.length = true ∧
+    numel M.data.shape = numel M.tshape ∧
+    numel (gather M.tshape M.rdims) * numel (gather M.tshape M.cdims) = numel M.data.shape :=
+  tenmat_ctor_spec data rd cd ts M hpos h
+
+/-- … and when the matrix does have the two side sizes as its extents, the constructed object is
+a well-formed `tenmat`. -/
+theorem C01_tenmat_ctor_wf (data : Dense α) (rd cd ts : Option (List Nat)) (M : Tenmat α)
+    (hpos : numel data.shape ≠ 0) (hd : data.WF) (h : Tenmat.mk? data rd cd ts = .ok M)
+    (hshape : M.data.shape = [numel (gather M.tshape M.rdims), numel (gather M.tshape M.cdims)]) :
+    M.WF := tenmat_ctor_wf data rd cd ts M hpos hd h hshape
+
+/-- The code accepts a `2 × 6` matrix for the split rows = mode 0, columns = mode 1 of a
+`3 × 4` tensor: the object then reports the matrix shape `(2, 6)` although the split it reports
+prescribes `(3, 4)`. -/
+theorem C01_tenmat_ctor_shape_counterexample :
+    Tenmat.mk? (⟨[2, 6], [0, 1, 2, 3, 4, 5, 6, 7, 8, 9, 10, 11]⟩ : Dense Int) (some [0]) (some [1]) (some [3, 4]) =
+      .ok ⟨[3, 4], [0], [1], ⟨[2, 6], [0, 1, 2, 3, 4, 5, 6, 7, 8, 9, 10, 11]⟩⟩ ∧
+    ([2, 6] : List Nat) ≠ [numel (gather [3, 4] [0]), numel (gather [3, 4] [1])] := by
+  constructor
+  · rfl
+  · decide
+
+/-- `S.to_sptenmat(rdims, cdims, cdims_cyclic)` of a well-formed sparse tensor, every argument
+convention: whenever the call is accepted the object reports the tensor's shape as `tshape`, the
+pair `gather_wrap_dims` derives from the arguments as `rdims` / `cdims` — a permutation of the
+modes —, `(prod tshape[rdims], prod tshape[cdims])` as `shape`, is a well-formed sparse matrix of
+that shape, and reports as `nnz` the number of stored triples = the number of non-zero cells of
+the denoted matrix = `nnz` of the sparse tensor. -/
+theorem C01_sptenmat_reports [AddCommMonoid α] [DecidableEq α] (S : Sparse α) (hS : S.WF)
+    (rd cd : Option (List Nat)) (cyc : Option Cyclic) (M : Sptenmat α) (h : S.toSptenmat rd cd cyc = .ok M) :
+    ∃ r c, gatherWrapDims S.shape.length rd cd cyc = .ok (r, c) ∧
+      isPermOf (r ++ c) S.shape.length = true ∧
+      M.tshape = S.shape ∧ M.rdims = r ∧ M.cdims = c ∧ M.WF ∧
+      M.mshape = [numel (gather S.shape r), numel (gather S.shape c)] ∧
+      (1 ≤ S.shape.length → M.shapeProp = [numel (gather S.shape r), numel (gather S.shape c)]) ∧
+      M.nnz = M.subs.length ∧ M.nnz = S.nnz ∧
+      M.nnz = ((allSubs M.mshape).filter
+        (fun u => !(M.get (u.getD 0 0) (u.getD 1 0) == 0))).length :=
+  sptenmat_reports S hS rd cd cyc M h
+
+/-- an acceptable split is accepted by `to_sptenmat`. -/
+theorem C01_sptenmat_accepts [AddCommMonoid α] [DecidableEq α] (S : Sparse α) (hS : S.WF)
+    (rd cd : Option (List Nat)) (cyc : Option Cyclic)
+    (hv : splitValid S.shape.length rd cd cyc = true) : ∃ M, S.toSptenmat rd cd cyc = .ok M := by
+  obtain ⟨r, c, _, _, h⟩ := toSptenmat_valid S hS rd cd cyc hv
+  exact ⟨_, h⟩
+
+/-- `tensor.to_sptensor()` keeps the shape and stores as many entries as the tensor has non-zero
+cells (`= tensor.nnz`); `sptensor.full()` keeps the shape and has as many non-zero cells as the
+sparse tensor stores; `full().to_sptensor()` stores as many again; and `sptensor.nnz` of a
+well-formed sparse tensor is the number of non-zero cells of the array it denotes. -/
+theorem C01_toSptensor_reports [AddMonoid α] [DecidableEq α] (T : Dense α) (hT : T.WF) (S : Sparse α) (hS : S.WF) :
+    (T.toSparse.shape = T.shape ∧ T.toSparse.nnz = T.nnz ∧
+      T.nnz = ((allSubs T.shape).filter (fun i => !(T.get i == 0))).length) ∧
+    (S.full.shape = S.shape ∧ S.full.nnz = S.nnz ∧ S.full.toSparse.nnz = S.nnz ∧
+      S.nnz = ((allSubs S.shape).filter (fun i => !(S.get i == 0))).length) :=
+  toSptensor_reports T hT S hS
+
+/-! ### matricized objects in general (whatever built them) -/
+
+/-- `tenmat.to_tensor()` of ANY well-formed `tenmat` (split a permutation of the modes, matrix of
+the two side sizes): a well-formed dense tensor of shape `tshape` whose entry `i` is the matrix
+entry in row `sub2ind tshape[r] i[r]`, column `sub2ind tshape[c] i[c]` (`Tenmat.get`). -/
+theorem C01_tenmat_toTensor [Zero α] (M : Tenmat α) (hM : M.WF) :
+    M.toTensor.shape = M.tshape ∧ M.toTensor.WF ∧
+      ∀ i, InBounds M.tshape i → M.toTensor.get i = M.get i := tenmat_toTensor_spec M hM
+
+/-- `sptenmat.to_sptensor()` of ANY well-formed `sptenmat`: a well-formed sparse tensor of shape
+`tshape` with as many stored entries that denotes at `i` the matrix entry at
+`(sub2ind tshape[r] i[r], sub2ind tshape[c] i[c])` (`Sptenmat.den`). -/
+theorem C01_sptenmat_toSptensor [AddCommMonoid α] [DecidableEq α] (M : Sptenmat α) (hM : M.WF) :
+    M.toSparse.shape = M.tshape ∧ M.toSparse.WF ∧ M.toSparse.nnz = M.subs.length ∧
+      ∀ i, InBounds M.tshape i → M.toSparse.get i = M.den i := sptenmat_toSparse_spec M hM
+
+/-- `sptenmat.full()` of ANY well-formed `sptenmat`: a well-formed `tenmat` with the same shape
+and split holding the same entries. -/
+theorem C01_sptenmat_full_any [AddCommMonoid α] [DecidableEq α] (M : Sptenmat α) (hM : M.WF) :
+    M.full.tshape = M.tshape ∧ M.full.rdims = M.rdims ∧ M.full.cdims = M.cdims ∧ M.full.WF ∧
+      ∀ i, InBounds M.tshape i → M.full.get i = M.den i := sptenmat_full_spec M hM
+
+/-! ### `double()` and `to_tensor()` of every class -/
+
+/-- `tensor.double()` is the array of the tensor, `tensor.full()` the tensor itself. -/
+theorem C01_double_tensor (T : Dense α) : T.double = T ∧ T.fullCopy = T := ⟨rfl, rfl⟩
+
+/-- `sptensor.double()` (a direct scatter by subscript, separate from `full()`): for stored
+subscripts inside the shape, one value each — repeated subscripts allowed, the last one wins in
+both — it is exactly the array of `full()`; `to_tensor()` is `full()`; for a well-formed tensor
+that array is the denoted one. -/
+theorem C01_double_sptensor [AddMonoid α] [DecidableEq α] (S : Sparse α)
+    (hin : ∀ i ∈ S.subs, InBounds S.shape i) (hlen : S.subs.length = S.vals.length) :
+    S.double = .ok S.full ∧ S.toTensor = S.full ∧
+      (S.WF → ∀ i, InBounds S.shape i → S.full.get i = S.get i) :=
+  ⟨sp_double_eq_full S hin hlen, rfl, fun hS i hi => (sp_full_at S hS i hi).1⟩
+
+/-- … and a stored subscript outside the shape makes `sptensor.double()` raise. -/
+theorem C01_double_sptensor_rejects [Zero α] (S : Sparse α) (i : List Nat) (hi : i ∈ S.subs)
+    (hout : ¬ InBounds S.shape i) : S.double = .error .reject := sp_double_rejects S i hi hout
+
+/-- `ktensor.double()` and `ktensor.to_tensor()` are `full()` (raising exactly when it does), hence
+for a well-formed Kruskal tensor the array `Σ_q λ_q ∏ₙ Aₙ[iₙ, q]`. -/
+theorem C01_double_ktensor [CommSemiring α] (K : Ktensor α) :
+    K.double = K.full ∧ K.toTensor = K.full ∧
+      (K.WF → 1 ≤ K.factors.length → ∀ i, InBounds K.shape i →
+        ∃ D, K.double = .ok D ∧ D.shape = K.shape ∧ D.WF ∧ D.get i = K.get i) := by
+  refine ⟨Ktensor.double_eq_full K, rfl, ?_⟩
+  intro hK hN i hi
+  rw [Ktensor.double_eq_full]
+  exact kruskal_full K hK hN i hi
+
+/-- `ttensor.double()` and `ttensor.to_tensor()` are `full()`, hence for a well-formed Tucker
+tensor the array `Σ_j G[j] ∏ₙ Uₙ[iₙ, jₙ]`. -/
+theorem C01_double_ttensor [CommSemiring α] (T : Ttensor α) :
+    T.double = T.full ∧ T.toTensor = T.full ∧
+      (ML.TuckerWF T → 1 ≤ T.factors.length →
+        ∃ D, T.double = .ok D ∧ D.shape = T.shape ∧ D.WF ∧ ∀ i, InBounds D.shape i → D.get i = T.get i) := by
+  refine ⟨Ttensor.double_eq_full T, rfl, ?_⟩
+  intro hT hN
+  rw [Ttensor.double_eq_full]
+  exact ML.tucker_full_spec T hT hN
+
+/-- `sumtensor.double()` and `sumtensor.to_tensor()` are `full()`, hence for well-formed parts of
+one shape with positive extents the array `Σ_p ⟦p⟧[i]`. -/
+theorem C01_double_sumtensor [CommSemiring α] [DecidableEq α] (P : ML.Sumtensor α) :
+    ML.Sumtensor.double P = ML.Sumtensor.full P ∧ ML.Sumtensor.toTensor P = ML.Sumtensor.full P ∧
+      ∀ p0 ps, P = p0 :: ps → (∀ p ∈ p0 :: ps, ML.PartWF p) → (∀ p ∈ ps, p.shape = p0.shape) →
+        (∀ e ∈ p0.shape, 0 < e) →
+        ∃ D, ML.Sumtensor.double P = .ok D ∧ D.shape = p0.shape ∧ D.WF ∧
+          ∀ i, InBounds p0.shape i → D.get i = p0.get i + (ps.map fun p => p.get i).sum := by
+  refine ⟨Sumtensor.double_eq_full P, rfl, ?_⟩
+  intro p0 ps hP hwf hsh hpos
+  rw [Sumtensor.double_eq_full, hP]
+  exact ML.sum_full_spec p0 ps hwf hsh hpos
+
+/-- `tenmat.double()` is the matrix; for a well-formed `tenmat` its entry at
+`(sub2ind tshape[r] i[r], sub2ind tshape[c] i[c])` is entry `i` of `to_tensor()`. -/
+theorem C01_double_tenmat [Zero α] (M : Tenmat α) :
+    M.double = M.data ∧
+      (M.WF → ∀ i, InBounds M.tshape i →
+        M.double.get (matSub M.tshape M.rdims M.cdims i) = M.toTensor.get i) :=
+  ⟨rfl, fun hM i hi => ((tenmat_toTensor_spec M hM).2.2 i hi).symm⟩
+
+/-- `sptenmat.double()` (SciPy COO matrix, values stored under one pair add up — separate from
+`full()`, where the last one wins): for a well-formed `sptenmat` of a tensor with at least one
+mode it is exactly the matrix of `full()`, whose entry at
+`(sub2ind tshape[r] i[r], sub2ind tshape[c] i[c])` is the denoted tensor entry. -/
+theorem C01_double_sptenmat [AddCommMonoid α] [DecidableEq α] (M : Sptenmat α) (hM : M.WF)
+    (hN : 1 ≤ M.tshape.length) :
+    M.double = .ok M.full.data ∧
+      ∀ i, InBounds M.tshape i → M.full.data.get (matSub M.tshape M.rdims M.cdims i) = M.den i :=
+  ⟨sptenmat_double_eq_full M hM hN, (sptenmat_full_spec M hM).2.2.2.2⟩
+
+/-! ### `ktensor.to_tenmat` -/
+
+/-- `ktensor.to_tenmat(rdims, cdims)` for every ordered partition `r ++ c` of the modes (either
+side may be empty): the code expands and matricizes, so the object IS
+`K.full().to_tenmat(rdims, cdims)`; it reports shape and split, is well-formed, and its entry in
+row `sub2ind shape[r] i[r]`, column `sub2ind shape[c] i[c]` is `Σ_q λ_q ∏ₙ Aₙ[iₙ, q]`. -/
+theorem C01_kruskal_tenmat_entry [CommSemiring α] (K : Ktensor α) (hK : K.WF) (hN : 1 ≤ K.factors.length)
+    (r c : List Nat) (hp : isPermOf (r ++ c) K.factors.length = true) (i : List Nat)
+    (hi : InBounds K.shape i) :
+    ∃ D M, K.full = .ok D ∧ D.toTenmat (some r) (some c) none = .ok M ∧
+      K.toTenmat (some r) (some c) none = .ok M ∧
+      M.tshape = K.shape ∧ M.rdims = r ∧ M.cdims = c ∧ M.WF ∧
+      M.data.shape = [numel (gather K.shape r), numel (gather K.shape c)] ∧
+      M.data.get [sub2ind (gather K.shape r) (gather i r), sub2ind (gather K.shape c) (gather i c)]
+        = K.get i := kruskal_tenmat_entry K hK hN r c hp i hi
+
+/-- every argument convention of `ktensor.to_tenmat` is `K.full().to_tenmat(…)` with the same
+arguments (also in what is refused). -/
+theorem C01_kruskal_tenmat_conventions [CommSemiring α] (K : Ktensor α) (D : Dense α) (hD : K.full = .ok D)
+    (rd cd : Option (List Nat)) (cyc : Option Cyclic) :
+    K.toTenmat rd cd cyc = D.toTenmat rd cd cyc := by
+  unfold Ktensor.toTenmat; rw [hD]
+
+/-- The Khatri-Rao form of the same matrix (both sides non-empty):
+`(khatrirao(A[r], reverse) · diag λ) · khatrirao(A[c], reverse)ᵀ` — entry `(a, b)` is
+`Σ_q λ_q L[a, q] Rm[b, q]` with `L`, `Rm` the reversed Khatri-Rao products of the row and of the
+column factor matrices. -/
+theorem C01_kruskal_tenmat_khatrirao [CommSemiring α] (K : Ktensor α) (hK : K.WF) (r c : List Nat)
+    (hr : r ≠ []) (hc : c ≠ []) (hp : isPermOf (r ++ c) K.factors.length = true) (i : List Nat)
+    (hi : InBounds K.shape i) :
+    ∃ L Rm M, khatrirao (gatherD K.factors r []) true = .ok L ∧
+      khatrirao (gatherD K.factors c []) true = .ok Rm ∧
+      K.toTenmat (some r) (some c) none = .ok M ∧
+      L.length = numel (gather K.shape r) ∧ Rm.length = numel (gather K.shape c) ∧
+      M.data.get [sub2ind (gather K.shape r) (gather i r), sub2ind (gather K.shape c) (gather i c)] =
+        ((List.range K.ncomp).map fun q => K.weights.getD q 0 *
+          (L.get (sub2ind (gather K.shape r) (gather i r)) q *
+            Rm.get (sub2ind (gather K.shape c) (gather i c)) q)).sum :=
+  kruskal_tenmat_khatrirao K hK r c hr hc hp i hi
+
+/-- The executable Khatri-Rao form (`Ktensor.krTenmat`, what the driver computes as the third
+witness) IS the matrix of `K.to_tenmat(r, c)`, for every ordered partition with both sides
+non-empty and positive extents. -/
+theorem C01_kruskal_tenmat_khatrirao_matrix [CommSemiring α] (K : Ktensor α) (hK : K.WF) (r c : List Nat)
+    (hr : r ≠ []) (hc : c ≠ []) (hp : isPermOf (r ++ c) K.factors.length = true)
+    (hpos : ∀ e ∈ K.shape, 0 < e) :
+    ∃ M, K.toTenmat (some r) (some c) none = .ok M ∧ K.krTenmat r c = .ok M.data :=
+  kruskal_krTenmat K hK r c hr hc hp hpos
+
+/-! ### chains of conversions -/
+
+/-- **Any finite chain of conversions** (`full`, `to_tensor`, `to_sptensor`, `to_tenmat(…)`,
+`to_sptenmat(…)` with any arguments, in any order) starting from a well-formed holder of any of
+the seven classes (dense, sparse, Kruskal, Tucker, sum, tenmat, sptenmat; at least one mode,
+positive extents): whenever the chain is accepted, the final object is a well-formed holder of the
+same shape that denotes the same array, element for element.  Induction over the chain from the
+per-step theorems (`step_sound`). -/
+theorem C01_chain [CommSemiring α] [DecidableEq α] (cs : List Conv) (h h' : Holder α) (hw : h.WF)
+    (he : runChain cs h = .ok h') :
+    h'.shape = h.shape ∧ h'.WF ∧ ∀ i, InBounds h.shape i → h'.get i = h.get i :=
+  chain_sound cs h h' hw he
+
+/-- … and every well-typed chain (each method exists on the class it is called on, each mode
+split acceptable) IS accepted. -/
+theorem C01_chain_accepts [CommSemiring α] [DecidableEq α] (cs : List Conv) (h : Holder α) (hw : h.WF)
+    (hv : chainValid h.shape.length cs h.kind = true) :
+    ∃ h', runChain cs h = .ok h' ∧ h'.shape = h.shape ∧ h'.WF ∧
+      ∀ i, InBounds h.shape i → h'.get i = h.get i := by
+  obtain ⟨h', he⟩ := chain_ok cs h hw hv
+  exact ⟨h', he, chain_sound cs h h' hw he⟩
+
+/-- `double()` of ANY well-formed holder (in particular of the end of any accepted chain) is
+accepted and yields a well-formed array of the tensor shape (matrix shape for the matricized
+classes) that holds, at the cell of every subscript `i` (`Holder.cell`: `i` itself, or
+(row, column) for the matricized classes), the entry the holder denotes. -/
+theorem C01_double_holder [CommSemiring α] [DecidableEq α] (h : Holder α) (hw : h.WF) :
+    ∃ D, h.double = .ok D ∧ D.shape = h.dshape ∧ D.WF ∧
+      ∀ i, InBounds h.shape i → D.get (h.cell i) = h.get i := holder_double h hw
+
+/-- chain, then `double()`: the array at the end of any accepted chain holds the entries of the
+array the chain started from. -/
+theorem C01_chain_double [CommSemiring α] [DecidableEq α] (cs : List Conv) (h h' : Holder α) (hw : h.WF)
+    (he : runChain cs h = .ok h') :
+    ∃ D, h'.double = .ok D ∧ D.shape = h'.dshape ∧ D.WF ∧
+      ∀ i, InBounds h.shape i → D.get (h'.cell i) = h.get i := by
+  obtain ⟨hs, hw', hg⟩ := chain_sound cs h h' hw he
+  obtain ⟨D, hD, hsD, hWD, hgD⟩ := holder_double h' hw'
+  exact ⟨D, hD, hsD, hWD, fun i hi => by rw [hgD i (hs ▸ hi), hg i hi]⟩
+
+/-- one ill-typed step — a method the class does not have, or a mode split that is not a
+partition of the modes — is refused. -/
+theorem C01_step_rejects [CommSemiring α] [DecidableEq α] (c : Conv) (h : Holder α) (hw : h.WF)
+    (hbad : c.target h.kind = none ∨ c.argsValid h.shape.length = false) :
+    c.apply h = .error .reject := step_rejects c h hw hbad
+
+/-- a chain from a well-formed holder is accepted EXACTLY when it is well-typed (so the
+acceptance of `C01_chain` is characterised, and the first ill-typed step ends the chain). -/
+theorem C01_chain_accepts_iff [CommSemiring α] [DecidableEq α] (cs : List Conv) (h : Holder α) (hw : h.WF) :
+    (∃ h', runChain cs h = .ok h') ↔ chainValid h.shape.length cs h.kind = true :=
+  chain_ok_iff cs h hw
+
+/-- a split is acceptable iff `gather_wrap_dims` yields a pair whose concatenation is a
+permutation of the modes (the range test of `to_tenmat` is implied). -/
+theorem C01_split_valid_iff (n : Nat) (rd cd : Option (List Nat)) (cyc : Option Cyclic) :
+    splitValid n rd cd cyc = true ↔
+      ∃ r c, gatherWrapDims n rd cd cyc = .ok (r, c) ∧ isPermOf (r ++ c) n = true :=
+  splitValid_iff_perm n rd cd cyc
+
+/-- a method the class does not have ends the chain. -/
+theorem C01_chain_rejects_missing_method :
+    runChain [Conv.toTensor] (Holder.dense (⟨[2], [1, 2]⟩ : Dense Int)) = .error .reject ∧
+    runChain [Conv.full] (Holder.tenmat (⟨[2], [0], [], ⟨[2, 1], [1, 2]⟩⟩ : Tenmat Int)) = .error .reject :=
+  ⟨rfl, rfl⟩
+
+/-! non-vacuity of the second batch -/
+
+/-- a well-formed 2 × 3 dense holder and a well-typed chain of six conversions through all the
+matricized / sparse classes. -/
+example : (Holder.dense (⟨[2, 3], [1, 0, 2, 0, 0, 3]⟩ : Dense Int)).WF :=
+  ⟨rfl, by decide, by decide⟩
+example : chainValid 2 [Conv.toSptensor, .toSptenmat (some [1]) none (some .fc), .full, .toTensor,
+    .toTenmat none (some [0]) none, .toTensor] HKind.dense = true := by decide
+example : ∃ h', runChain [Conv.toSptensor, .toSptenmat (some [1]) none (some .fc), .full, .toTensor,
+    .toTenmat none (some [0]) none, .toTensor] (Holder.dense (⟨[2, 3], [1, 0, 2, 0, 0, 3]⟩ : Dense Int)) = .ok h' ∧
+    h'.shape = [2, 3] ∧ h'.WF ∧ ∀ i, InBounds [2, 3] i → h'.get i = (⟨[2, 3], [1, 0, 2, 0, 0, 3]⟩ : Dense Int).get i :=
+  C01_chain_accepts _ _ ⟨rfl, by decide, by decide⟩ (by decide)
+example : runChain [Conv.toSptensor, .full, .toTenmat none (some [0]) none, .toTensor]
+    (Holder.dense (⟨[2, 3], [1, 0, 2, 0, 0, 3]⟩ : Dense Int)) =
+    .ok (Holder.dense ⟨[2, 3], [1, 0, 2, 0, 0, 3]⟩) := by decide
+example : (⟨[2, 2], [[1, 0], [0, 1], [1, 0]], [5, 7, 9]⟩ : Sparse Int).double = .ok ⟨[2, 2], [0, 9, 7, 0]⟩ := by decide
+example : Tenmat.WF (⟨[2, 3], [1], [0], ⟨[3, 2], [1, 2, 3, 4, 5, 6]⟩⟩ : Tenmat Int) := ⟨by decide, rfl, rfl⟩
+example : Sptenmat.WF (⟨[2, 3], [1], [0], [[2, 0], [0, 1]], [4, 5]⟩ : Sptenmat Int) :=
+  ⟨by decide, ⟨rfl, by decide, by decide, by decide⟩⟩
+example : isPermOf ([1] ++ [0]) (⟨[1, 2], [[[1, 2], [3, 4]], [[5, 6], [7, 8]]]⟩ : Ktensor Int).factors.length = true := by
+  decide
+
 
 end Pyttb
